@@ -495,6 +495,15 @@ func genConf(r *Rng, pf Profile, total Res) *ConfSpec {
 				if len(q.Max) == 0 {
 					q.Max = nil
 				}
+				// an explicit zero: the type is forbidden here, not unlimited
+				if q.Max != nil && r.Bool(0.1) {
+					for _, t := range resTypes {
+						if _, ok := q.Max[t]; !ok {
+							q.Max[t] = 0
+							break
+						}
+					}
+				}
 			}
 			if parent.MaxApps != 0 {
 				q.MaxApps = uint64(r.Range(1, int(parent.MaxApps)))
